@@ -8,7 +8,7 @@ from .. import core, e1run, forest
 MOD = "mc.props.c20"
 P2 = ("_pre_detach", "_pre_attach")
 CFG = {"read": False, "nonnode": True, "extras": True}
-NAMES = ("foo", "bar", "name")
+NAMES = ("foo", "bar", "name", "__tag__")   # a dunder-named instance attribute is an attribute like any other
 MISSING = "<AttributeError>"
 
 
@@ -229,9 +229,45 @@ def check_refusing_targets(t):
                                             "attribute": attr, "chain_length": depth})
 
 
+def check_link_positions(t):
+    """A link takes part in trees like any other node - also below / above nodes of unusual classes."""
+    import anytree
+
+    class Bag(anytree.NodeMixin):      # container-like: falsy while it has no children
+        def __init__(self, name):
+            self.name = name
+
+        def __len__(self):
+            return len(self.children)
+
+    class LightBag(anytree.LightNodeMixin):
+        __slots__ = ("name",)
+
+        def __init__(self, name):
+            self.name = name
+
+        def __bool__(self):
+            return False
+
+    tgt = anytree.Node("t")
+    for pcls in (Bag, anytree.AnyNode, anytree.Node):
+        p = pcls("p") if pcls is not anytree.AnyNode else anytree.AnyNode(id="p")
+        first = anytree.SymlinkNode(tgt, parent=p)
+        second = anytree.SymlinkNode(tgt, parent=p, extra=1)
+        kids = anytree.SymlinkNode(tgt, children=[pcls("c") if pcls is not anytree.AnyNode else anytree.AnyNode(id="c")])
+        t.c["evaluations"] += 1
+        t.c["constructor_positions"] += 1
+        ok = (first.parent is p and second.parent is p and len(p.children) == 2 and p.children[0] is first and p.children[1] is second
+              and len(kids.children) == 1 and kids.children[0].parent is kids and tgt.parent is None and len(tgt.children) == 0)
+        if not ok:
+            t.violation("C20: SymlinkNode(target, parent=<%s>, children=...) does not take its place in the tree" % pcls.__name__,
+                        {"engine": "E2", "module": MOD, "part": "link-positions", "parent_class": pcls.__name__})
+
+
 def job_refusing():
     t = core.Tally()
     core.guard(t, "C20", {"engine": "E2", "module": MOD, "part": "refusing-target"}, check_refusing_targets, t)
+    core.guard(t, "C20", {"engine": "E2", "module": MOD, "part": "link-positions"}, check_link_positions, t)
     return t
 
 
@@ -264,6 +300,9 @@ def _tup(x):
 
 def replay(c):
     t = core.Tally()
+    if c.get("part") == "link-positions":
+        check_link_positions(t)
+        return [v["why"] for v in t.violations]
     if c.get("part") == "refusing-target":
         check_refusing_targets(t)
         return [v["why"] for v in t.violations]
@@ -305,13 +344,13 @@ def run(tier):
                 "universes {Node a, Node b, link c->a, link d->c, (link e->b)}, {links to external targets}, {Node, AnyNode, link, "
                 "mixin} with the C01 invariant, the C02 model and the C03 oracle, and external targets never touched; attributes: "
                 "from %d forest states of the 5-label universe every sequence of <=2 events (and every sequence of 3 from the initial "
-                "state) over 11 attribute writes (through link / link-to-link / on target), 7 structural calls, 2 re-targetings of links and 2 constructor "
+                "state) over 14 attribute writes (through link / link-to-link / on target), 7 structural calls, 2 re-targetings of links and 2 constructor "
                 "calls with keywords; after each event every read on every link and node is compared by identity with a reference "
                 "attribute store, and link objects must not store forwarded attributes; non-trivial = events applied" % len(sel),
         "bounds": summ + [{"attribute_start_states": len(sel), "of": len(states), "event_menu": 22, "depth": "2 (3 from the initial state)"}],
     }
     return {"tally": t, "coverage": cov, "known": known,
             "guards": ("writes_through_links", "structural_events", "constructor_kwargs", "sequences", "refusals", "pre_hook_vetoes",
-                       "retargets", "refused_writes"),
+                       "retargets", "refused_writes", "constructor_positions"),
             "assumptions": ["attribute names {foo, bar, name, baz, nope}; bounded universes", "C03 known findings apply to link nodes "
                             "identically (same setter code) and are matched exactly as in C03"]}
